@@ -182,3 +182,64 @@ func TestGenerateShared(t *testing.T) {
 		t.Fatal("too few shared ways")
 	}
 }
+
+func TestGenerateConcaveAndEdge(t *testing.T) {
+	out, in := 0, 0
+	for i := 0; i < 1000; i++ {
+		tr, m := GenerateConcave(gen.New(uint64(i), "c"))
+		if err := tr.Validate(m); err != nil {
+			t.Fatal(err)
+		}
+		o, io := tr.BBoxCentreStats()
+		if o > 0 {
+			out++
+		}
+		if io > 0 {
+			in++
+		}
+	}
+	if out < 250 || in < 40 {
+		t.Fatalf("concave truths: bbox centre outside own outer %d, inside another outer %d of 1000", out, in)
+	}
+	// the U of the textbook case: hole through both arms, rectangle in the notch
+	u := &Truth{Polys: []Poly{
+		{Outer: []Pt{{10, 10}, {110, 10}, {110, 110}, {80, 110}, {80, 40}, {40, 40}, {40, 110}, {10, 110}},
+			Holes: [][]Pt{{{20, 20}, {20, 100}, {30, 100}, {30, 30}, {90, 30}, {90, 100}, {100, 100}, {100, 20}}}},
+		{Outer: []Pt{{50, 50}, {70, 50}, {70, 90}, {50, 90}}},
+	}}
+	u.Normalise()
+	if err := u.Validate(1); err != nil {
+		t.Fatal(err)
+	}
+	if o, io := u.BBoxCentreStats(); o != 1 || io != 1 {
+		t.Fatalf("U: %d %d", o, io)
+	}
+	// rings spanning the whole coordinate range are handled exactly
+	w := []Pt{{-1_800_000_000, -900_000_000}, {1_800_000_000, -900_000_000}, {1_800_000_000, 900_000_000}, {-1_800_000_000, 900_000_000}}
+	if !Simple(w) || Area2(w) <= 0 || Locate(Pt{1, 1}, w) != 1 || Locate(Pt{1_800_000_000, 5}, w) != 0 {
+		t.Fatal("world ring")
+	}
+	edge := 0
+	for i := 0; i < 2000; i++ {
+		tr, _ := Generate(gen.New(uint64(i), "e"))
+		if tr.Origin != "edge" {
+			continue
+		}
+		edge++
+		hit := false
+		for _, v := range tr.all() {
+			if v.X > 1_800_000_000 || v.X < -1_800_000_000 || v.Y > 900_000_000 || v.Y < -900_000_000 {
+				t.Fatal("out of range")
+			}
+			if v.X == 1_800_000_000 || v.X == -1_800_000_000 || v.Y == 900_000_000 || v.Y == -900_000_000 {
+				hit = true
+			}
+		}
+		if !hit {
+			t.Fatal("edge truth without a vertex on the edge")
+		}
+	}
+	if edge < 100 {
+		t.Fatal("too few edge truths")
+	}
+}
